@@ -120,7 +120,7 @@ for d in D:
 
 addr = 0xff80
 for a in A:
-    CSFR[addr] = d
+    CSFR[addr] = a
     addr+=4
 
 Traps = [ ("VAF", "VAP"),                                     # Class 0: MMU
